@@ -89,6 +89,9 @@ def families(rng):
     F.append(("single compartment, two unlinked datasets",
               {"megacomplex": {"s": {"type": "decay-parallel", "compartments": ["a"], "rates": ["k2"]}}, "dataset_groups": {"default": {"link_clp": False}},
                "dataset": {"d1": {"megacomplex": ["s"]}, "d2": {"megacomplex": ["s"]}}}, base, {"d1": ["a"], "d2": ["a"]}, False, "parallel"))
+    F.append(("parallel, one rate tied to another by an expression",
+              {"megacomplex": {"s": {"type": "decay-parallel", "compartments": ["a", "b"], "rates": ["k1", "ke"]}}, "dataset": {"d": {"megacomplex": ["s"]}}},
+              base + [["ke", k[0] * 0.2, {"expr": "$k1 * 0.2"}]], {"d": ["a", "b"]}, False, "parallel"))
     F.append(("three unlinked datasets", {"megacomplex": {"s": {"type": "decay-sequential", "compartments": ["a", "b"], "rates": ["k1", "k2"]}}, "dataset_groups": {"default": {"link_clp": False}},
                                           "irf": IRF_G, "dataset": {"d1": {"megacomplex": ["s"], "irf": "g"}, "d2": {"megacomplex": ["s"], "irf": "g"}, "d3": {"megacomplex": ["s"], "irf": "g"}}}, base,
               {"d1": ["a", "b"], "d2": ["a", "b"], "d3": ["a", "b"]}, False, "sequential"))
@@ -240,6 +243,11 @@ def run_family(fam, rng, rec, log, counters):
             p2.get(k).value += sgn * float(rng.uniform(1.0, 3.0))
         else:
             p2.get(k).value *= 1 + float(rng.uniform(0.1, 0.2)) * sgn
+    # the perturbed start is a parameter set of its own (built from its specification, not a copy that could still be
+    # tied to the generating set)
+    from glotaran.parameter import Parameter, Parameters
+
+    p2 = Parameters({q.label: Parameter(**q.as_dict()) for q in p2.all()})
     try:
         with time_limit(240):
             r = optimize(Scheme(model=model, parameters=p2, data=data, maximum_number_function_evaluations=200, add_svd=False), verbose=False, raise_exception=True)
